@@ -26,7 +26,8 @@ def _v(name: str) -> str:
 
 class Tr:
     def __init__(self, ret_arity: int):
-        self.ret_arity = ret_arity
+        self.ret_arity = ret_arity          # 0 = the function returns a list of ints
+        self.fall = [lambda env: '.error "fallthrough"']   # what reaching the end of a block means (stack: loops)
 
     # ---------------------------------------------------------------- expr
     def iexpr(self, e, env) -> str:
@@ -60,6 +61,11 @@ class Tr:
             raise Untranslatable(ast.dump(e.op))
         if isinstance(e, ast.Call) and isinstance(e.func, ast.Name) and e.func.id in ("max", "min") and len(e.args) == 2 and not e.keywords:
             return f"({e.func.id} {self.iexpr(e.args[0], env)} {self.iexpr(e.args[1], env)})"
+        if isinstance(e, ast.Call) and isinstance(e.func, ast.Name) and e.func.id == "len" and len(e.args) == 1 and isinstance(e.args[0], ast.Name) and env.get(e.args[0].id) == "list":
+            return f"(Int.ofNat {_v(e.args[0].id)}.length)"
+        if isinstance(e, ast.Subscript) and isinstance(e.value, ast.Name) and env.get(e.value.id) == "list":
+            # x[i]: only generated for indices known to be in range (loop variable of `range(len(x))`)
+            return f"({_v(e.value.id)}.getD (Int.toNat {self.iexpr(e.slice, env)}) 0)"
         raise Untranslatable("int expr: " + ast.dump(e))
 
     def bexpr(self, e, env) -> str:
@@ -68,6 +74,15 @@ class Tr:
             return "(" + op.join(self.bexpr(v, env) for v in e.values) + ")"
         if isinstance(e, ast.UnaryOp) and isinstance(e.op, ast.Not):
             return f"(¬ {self.bexpr(e.operand, env)})"
+        nt = self._is_none_test(e)
+        if nt is not None:
+            nm, positive = nt
+            t = env.get(nm)
+            if t == "opt":
+                return f"({_v(nm)}.isNone = true)" if positive else f"({_v(nm)}.isSome = true)"
+            if t == "int":
+                return "False" if positive else "True"
+            raise Untranslatable(f"is-None test on {nm}: {t}")
         if isinstance(e, ast.Compare):
             parts = []
             left = e.left
@@ -101,8 +116,71 @@ class Tr:
     def block(self, stmts, env, ind) -> str:
         pad = "  " * ind
         if not stmts:
-            return pad + '.error "fallthrough"'
+            return pad + self.fall[-1](env)
         s, rest = stmts[0], stmts[1:]
+        # ---- normalise AnnAssign / AugAssign to Assign
+        if isinstance(s, ast.AnnAssign) and s.value is not None and isinstance(s.target, ast.Name):
+            s = ast.Assign(targets=[s.target], value=s.value)
+        if isinstance(s, ast.AugAssign) and isinstance(s.target, ast.Name):
+            s = ast.Assign(targets=[s.target], value=ast.BinOp(left=ast.Name(id=s.target.id, ctx=ast.Load()), op=s.op, right=s.value))
+        # ---- division guard: python raises ZeroDivisionError where Lean's fdiv/fmod are total
+        if isinstance(s, ast.Assign):
+            divs = [n.right for n in ast.walk(s.value) if isinstance(n, ast.BinOp) and isinstance(n.op, (ast.FloorDiv, ast.Mod))]
+            if divs and not getattr(s, "_guarded", False):
+                s._guarded = True
+                g = " ∨ ".join(f"({self.iexpr(d, env)} = 0)" for d in divs)
+                return f'{pad}if ({g}) then .error "ZeroDivisionError" else (\n' + self.block([s] + list(rest), env, ind + 1) + ")"
+        # ---- list copy, list element assignment
+        if isinstance(s, ast.Assign) and len(s.targets) == 1 and isinstance(s.targets[0], ast.Name) and isinstance(s.value, ast.Call) \
+                and isinstance(s.value.func, ast.Name) and s.value.func.id in ("_copy", "list") and len(s.value.args) == 1 \
+                and isinstance(s.value.args[0], ast.Name) and env.get(s.value.args[0].id) == "list":
+            env2 = dict(env); env2[s.targets[0].id] = "list"
+            return f"{pad}let {_v(s.targets[0].id)} : List Int := {_v(s.value.args[0].id)}\n" + self.block(rest, env2, ind)
+        if isinstance(s, ast.Assign) and len(s.targets) == 1 and isinstance(s.targets[0], ast.Subscript) and isinstance(s.targets[0].value, ast.Name) \
+                and env.get(s.targets[0].value.id) == "list":
+            nm = s.targets[0].value.id
+            return (f"{pad}let {_v(nm)} : List Int := {_v(nm)}.set (Int.toNat {self.iexpr(s.targets[0].slice, env)}) {self.iexpr(s.value, env)}\n"
+                    + self.block(rest, env, ind))
+        # ---- for i in range(len(xs)): body   (accumulator loop -> foldlM in Except)
+        if isinstance(s, ast.For):
+            it = s.iter
+            if not (isinstance(s.target, ast.Name) and isinstance(it, ast.Call) and isinstance(it.func, ast.Name) and it.func.id == "range"
+                    and len(it.args) == 1 and isinstance(it.args[0], ast.Call) and isinstance(it.args[0].func, ast.Name)
+                    and it.args[0].func.id == "len" and isinstance(it.args[0].args[0], ast.Name) and env.get(it.args[0].args[0].id) == "list") or s.orelse:
+                raise Untranslatable("for loop shape")
+            xs = it.args[0].args[0].id
+            assigned = []
+            for n in ast.walk(ast.Module(body=s.body, type_ignores=[])):
+                tg = None
+                if isinstance(n, ast.Assign) and isinstance(n.targets[0], ast.Name):
+                    tg = n.targets[0].id
+                if isinstance(n, (ast.AugAssign, ast.AnnAssign)) and isinstance(n.target, ast.Name):
+                    tg = n.target.id
+                if tg and tg in env and tg not in assigned:
+                    assigned.append(tg)
+            if not assigned:
+                raise Untranslatable("loop without accumulator")
+            st_types = [env[a] for a in assigned]
+            lean_t = {"int": "Int", "opt": "Option Int", "list": "List Int"}
+            tup_t = " × ".join(lean_t[t] for t in st_types)
+            tup_v = ", ".join(_v(a) for a in assigned)
+
+            def fall(e2, assigned=assigned, st_types=st_types):
+                parts = []
+                for a, t in zip(assigned, st_types):
+                    parts.append(f"(some {_v(a)})" if (t == "opt" and e2.get(a) == "int") else _v(a))
+                return ".ok (" + ", ".join(parts) + ")"
+            env_body = dict(env); env_body[s.target.id] = "int"
+            self.fall.append(fall)
+            body = self.block(list(s.body), env_body, ind + 2)
+            self.fall.pop()
+            out = f"{pad}match (List.range {_v(xs)}.length).foldlM (m := Except String) (fun (st__ : {tup_t}) (i__ : Nat) =>\n"
+            out += f"{pad}    let {_v(s.target.id)} : Int := Int.ofNat i__\n"
+            out += f"{pad}    let ({tup_v}) := st__\n" if len(assigned) > 1 else f"{pad}    let {tup_v} := st__\n"
+            out += body + f")\n{pad}    ({tup_v}) with\n"
+            out += f"{pad}| .error e__ => .error e__\n"
+            out += f"{pad}| .ok ({tup_v}) => (\n" + self.block(rest, env, ind + 1) + ")"
+            return out
         if isinstance(s, ast.Expr) and isinstance(s.value, ast.Constant) and isinstance(s.value.value, str):
             return self.block(rest, env, ind)  # docstring
         if isinstance(s, ast.Pass):
@@ -127,6 +205,8 @@ class Tr:
                 return f"{pad}let {_v(tgt)} : Option Int := none\n" + self.block(rest, env2, ind)
             env2[tgt] = "int"
             return f"{pad}let {_v(tgt)} : Int := {self.iexpr(src, env)}\n" + self.block(rest, env2, ind)
+        if isinstance(s, ast.Return) and isinstance(s.value, ast.Name) and env.get(s.value.id) == "list" and self.ret_arity == 0:
+            return pad + f".ok {_v(s.value.id)}"
         if isinstance(s, ast.Return):
             v = s.value
             elts = v.elts if isinstance(v, ast.Tuple) else [v]
@@ -178,6 +258,7 @@ def translate_function(fn, lean_name: str, params: list[tuple[str, str]], ret_ar
     env = {n: t for n, t in params}
     tr = Tr(ret_arity)
     body = tr.block(list(fdef.body), env, 1)
-    sig = " ".join(f"({_v(n)} : {'Int' if t == 'int' else 'Option Int'})" for n, t in params)
-    ret = " × ".join(["Int"] * ret_arity)
+    lean_t = {"int": "Int", "opt": "Option Int", "list": "List Int"}
+    sig = " ".join(f"({_v(n)} : {lean_t[t]})" for n, t in params)
+    ret = " × ".join(["Int"] * ret_arity) if ret_arity else "List Int"
     return f"def {lean_name} {sig} : Except String ({ret}) :=\n{body}\n"
